@@ -5,11 +5,11 @@ HERE = os.path.dirname(os.path.abspath(__file__))
 TB = ("Lean 4.33.0 kernel; axioms propext/Quot.sound/Classical.choice only (audited by #print axioms each run); "
       "no sorry/native_decide/bv_decide; ")
 CHECKS = {
- 'C09': dict(cat='proof', technique='Lean 4 theorems (induction over the encoder loop) + model/implementation correspondence',
-   text='Z80 RLE coder: decode(encode d) = d, length bound and block framing proved for all byte strings on a hand model tied to '
-        'snapshot.Z80 by differential execution every run; register/state/RAM round trips of both formats and an independent '
-        'decoder are exploration on the real code.',
-   note=TB + 'hand model Model/Z80Rle.lean tied by correspondence; zlib trusted; header layouts explored, not proved', ref='§8 C09'),
+ 'C09': dict(cat='proof', technique='Lean 4 theorems (induction over the encoder loop, page lists, poke progressions; kernel enumeration for packed header bytes) + model/implementation correspondence + e2e with independent decoders and an independent edit oracle',
+   text='40 theorems: Z80 RLE decode(encode d) = d, length bound and block framing for all byte strings; version 2/3 page-block stream round trip; T-state encodings of both formats and their agreement, 16-bit words, R bit 7/border/IM/issue-2 packed bytes; '
+        'poke/move/patch frame theorems on flat lists (real Python slice-assignment semantics) and on banked Memory objects with bank prefixes (exactly the named cells of the named bank change; default/explicit destination bank incl. bank 0). '
+        'Register/state header layouts, option order and file I/O of bin2sna/snapmod are e2e (every --reg/--state name, all 81 --move prefix combinations, pokes, patches) against an oracle written from the manual pages.',
+   note=TB + 'hand models Model/Z80Rle, SnapHeader, SnapEdit tied by correspondence (7.8k cases/run, stateful op streams); zlib trusted', ref='§8 C09'),
  'C18': dict(cat='proof', technique='Lean 4 theorems (induction over chunk lists / row-loop state machine) + model/implementation correspondence + e2e word-sequence extraction',
    text='32 theorems: faithful model of skoolkit.wrap (textwrap) — words preserved in order exactly once, width bound, greediness, no empty line, for all texts and widths; '
         'AsmWriter.print_instructions row loop equals a declarative layout (every instruction/comment line once, in order, in its group; warning exactly for over-wide rows); '
@@ -44,8 +44,7 @@ CHECKS = {
    note=TB + 'hand models Model/CtlLengths, CtlCompose, CtlComments tied by correspondence (14.6k cases/run); text layer CtlText has no theorems', ref='§8 C03'),
  'C08': dict(cat='proof', technique='Lean 4 theorems over models regenerated from simulator.py/cmiosimulator.py by an AST translator (generic tactic per closure; induction over runs; kernel enumeration for masks) + per-slot differential validation of the translation against 4 real simulators',
    text='ROM preservation and T-monotonicity are proved for every closure with any arguments, any state, any lawful memory, and lifted to runs of any length for both Python simulators '
-        '(48K list memory and the 128K Memory+PagingTracer model). Range invariant (all registers/cells/state fields) is proved per closure by one generic tactic; closures it does not yet close '
-        'are excluded explicitly (ranges_preserved_partial). 128K paging: refinement to "mapping = f(last accepted write)", lock absorbing, one-bank writes, visible slots, decode mask = A15/A1 over all 65536 ports. '
+        '(48K list memory and the 128K Memory+PagingTracer model). The range invariant (all registers/cells/state fields) is proved for every closure (generic tactics, no closure-specific proof text), lifted to steps and runs of any length. 128K paging: refinement to "mapping = f(last accepted write)", lock absorbing, one-bank writes, visible slots, decode mask = A15/A1 over all 65536 ports. '
         'C simulators: differential execution against the model (all 1792 slots) and program-level oracle only.',
    note=TB + 'translator py2lean.py/cdispatch.py trusted but validated each run (all slots x random boundary states, 4 implementations); Mem128 hand model tied by correspondence', ref='§8 C08'),
  'C15': dict(cat='proof', technique='Lean 4 theorems (induction over byte strings / tile rows; decide over 256-entry tables) + model/implementation correspondence on pre-zlib scanlines + e2e with an independent PNG/APNG decoder and renderer',
@@ -85,6 +84,11 @@ CHECKS = {
         'LoadTracer.fast_load copies exactly the block; the ROM epilogue returns to START; their composition (no-CLEAR tape loads and starts); one pass of the 128K bank loader pages and calls LD-BYTES; written tapes read back (cites C11). '
         'The 16K ROM between the proved pieces (BASIC LOAD "", edge sampling, 128K menu) is executed, not reasoned about: the bin2tap->tap2sna claim itself is e2e exploration over an option grid.',
    note=TB + 'generated Z80 model (translator validated per slot) + hand models Model/Bin2Tap, FastLoad, RomEpilogue tied by correspondence (2.5k cases/run) incl. the ROM bytes the theorems assume', ref='§8 C12'),
+ 'C07': dict(cat='proof', technique='Lean 4: kernel-decided equalities over all opcode slots between data tables dumped from the five modules each run, decoder wrappers proved for all memories/addresses/options, simulator size/timing facts derived from the closure ASTs and PROVED of the generated model per closure + exhaustive correspondence',
+   text='21 theorems over all 1786 opcode slots, every additional-opcode set, case, wrap setting, memory and address: no table lookup of Disassembler / traceutils.disassemble / opcodes.decode / z80.get_timing can fail; the three static decoders agree on length (incl. the 64K cut); the two disassemblers print identical text; '
+        'the length equals the simulator\'s fall-through PC advance and get_timing\'s value(s) are exactly the T-states the simulator closure can take (which member goes with which branch), for the plain simulator, and via C06/C19 for the contended and C ones. '
+        'Operand formatting variants and rst_handler are outside the theorems (correspondence/e2e).',
+   note=TB + 'data tables dumped by calling the real functions (translate/gen_c07.py), decode wrappers are hand models tied by exhaustive correspondence (122k cases/run)', ref='§8 C07'),
 }
 NA = {}
 def main():
